@@ -89,12 +89,22 @@ class _Driver:
             nxt = []
             for s in states:
                 if s.rh is not None and s.rl is not None: nxt.append(s); continue
-                if isinstance(st, ast.For) and ast.unparse(st.iter) in self.rs.loops and s.rh is None and s.rl is None:
+                if isinstance(st, ast.For) and self.loop_key(st, fr_hi) is not None and s.rh is None and s.rl is None:
                     nxt += self.product_loop(st, s, fr_hi, fr_lo)
                 else:
                     nxt += self.lockstep(st, s, fr_hi, fr_lo)
             states = nxt
         return states
+
+    def loop_key(self, st, fr):
+        """the relational loop spec for this `for`: by header text, else by the position recorded in the spec"""
+        h = ast.unparse(st.iter)
+        if h in self.rs.loops: return h
+        own = [id(n) for n in sx.own_for_loops(fr.fn)]
+        pos = own.index(id(st)) if id(st) in own else None
+        for k, v in self.rs.loops.items():
+            if v.get('pos') is not None and v.get('pos') == pos: return k
+        return None
 
     def lockstep(self, st, s, fr_hi, fr_lo):
         res = []
@@ -123,7 +133,7 @@ class _Driver:
     def product_loop(self, st, s, fr_hi, fr_lo):
         ex, S, rs = self.ex, self.S, self.rs
         hdr = ast.unparse(st.iter)
-        spec = rs.loops[hdr]
+        spec = rs.loops[self.loop_key(st, fr_hi)]
         a_hi, a_lo = fr_hi.argns, fr_lo.argns
         unary = fr_hi.loop_spec(st, hdr)
         ph = sx.Path(s.pc, dict(s.eh), dict(s.heap), s.tr)
@@ -159,7 +169,7 @@ class _Driver:
         def havoc(env, q, tag):
             e = dict(env)
             for nme in assigned:
-                if nme in shapes: e[nme] = ex.fresh_value(q, shapes[nme], f'{nme}_{tag}')
+                if sx.ROLE_REV.get(nme, nme) in shapes: e[nme] = ex.fresh_value(q, shapes[sx.ROLE_REV.get(nme, nme)], f'{nme}_{tag}')
                 elif nme in e and not isinstance(e[nme], (VFunc, VClass)):
                     sh = shape_of(e[nme]); e[nme] = ex.fresh_value(q, sh, f'{nme}_{tag}') if sh != 'unk' else VUnk(nme)
                 else: e.pop(nme, None)
@@ -264,6 +274,7 @@ def verify_relational(prog, reg, rs: RelSpec, timeout_ms=20000):
     if wr:
         rep.error = f'function is wrapped by decorator(s) {wr}: a relational contract proved on the body does not transfer to the name'; return rep
     d = _Driver(prog, reg, rs)
+    sx.set_role_aliases(fn, reg.get(rs.qual).loops if reg.get(rs.qual) is not None else [])
     S, ex = d.S, d.ex
     unary = reg.get(rs.qual)
     argnames = [a.arg for a in fn.args.args]
